@@ -61,7 +61,7 @@ Qed.
 Lemma feed_video_frame d s m c nals cl cl' plan s' evs :
   (lenN (rm_payload m) <=? 5) = false ->
   video_codec_id m = (match c with Avc => codec_id_avc | Hevc => codec_id_hevc end) ->
-  is_avc_key_seq_header m = false -> is_hevc_key_seq_header m = false ->
+  is_avc_key_seq_header m = false -> is_hevc_key_seq_header m = false -> enhanced_too_short m = false ->
   iterate_nalu_avcc (if (video_codec_id m =? codec_id_hevc) && is_enhanced_hevc_nalu m
                      then skipn (enhanced_nalu_index m) (rm_payload m) else skipn 5 (rm_payload m)) = (nals, None) ->
   r_spspps s = omap annexb_join4 cl ->
@@ -75,12 +75,12 @@ Lemma feed_video_frame d s m c nals cl cl' plan s' evs :
        /\ f_pid (te_frame ev) = pid_video /\ f_sid (te_frame ev) = sid_video
        /\ pack (te_frame ev) = (te_packets ev, te_cc ev).
 Proof.
-  intros Hlen Hcid Ha Hh Hsplit Hcache Hplan Hne. unfold feed_video_pure.
+  intros Hlen Hcid Ha Hh Hshort Hsplit Hcache Hplan Hne. unfold feed_video_pure.
   assert (Hc : (if video_codec_id m =? codec_id_hevc then Hevc else Avc) = c).
   { rewrite Hcid. destruct c; reflexivity. }
   assert (Hok : negb ((video_codec_id m =? codec_id_avc) || (video_codec_id m =? codec_id_hevc)) = false).
   { rewrite Hcid. destruct c; reflexivity. }
-  rewrite Hlen. cbv zeta. rewrite Hok, Ha, Hh.
+  rewrite Hlen. cbv zeta. rewrite Hok, Ha, Hh, Hshort.
   match goal with |- context [iterate_nalu_avcc ?b] =>
     replace (iterate_nalu_avcc b) with (nals, @None N) by (symmetry; exact Hsplit) end.
   rewrite Hc, Hcache.
